@@ -93,6 +93,14 @@ def delegation(repo, res):
     res.fn(fn)
     calls = [norm(c) for c in ast.walk(fn.node) if isinstance(c, ast.Call)]
     res.check("self.units.get_base_equivalent(unit_system)" in calls and "_sanitize_unit_system(unit_system, self)" in calls, "in_base-target", fn.where(), "in_base converts into the unit get_base_equivalent reports for the same unit system argument", rid=r1)
+    # ... and that target is re-created in the array's own registry: a unit system's units live in the registry the
+    # system was built with (the default one for the built-in systems), so without this the base route would divide
+    # by another registry's scale while to('Msun') uses the array's own (same analysis as C10-R3)
+    from rules import c10
+
+    ok_reg, found_reg = c10.base_equivalent_in_own_registry(repo)
+    gbe = uo.func("Unit.get_base_equivalent")
+    res.check(ok_reg, "base-route-registry", gbe.where(), "in_base / convert_to_base and to() must read the target unit's scale from the same (the array's own) registry: get_base_equivalent returns a unit that is not re-created in self.registry", "Unit(..., registry=self.registry)", found_reg, rid=r1)
 
 
 SUBTRACT_FORMS = (
@@ -323,4 +331,5 @@ MUTANTS = [
     Mutant("em-one-sided", UO, None, '("G", dims.magnetic_field_cgs): (dims.magnetic_field_mks, "T", 1.0e-4)', '("G", dims.magnetic_field_cgs): (dims.magnetic_field_mks, "T", 1.0e-3)', ("C03-R4",)),
     Mutant("em-two-sided-slip", UO, None, "0.1 * speed_of_light_cm_per_s),\n    (\"statC\"", "0.01 * speed_of_light_cm_per_s),\n    (\"statC\"", ("C03-R4",)),
     Mutant("twin-keyword-form", ARR, "unyt_array.in_cgs", 'return self.in_base("cgs")', 'return self.in_base(unit_system="cgs")', (), benign=True),
+    Mutant("base-equivalent-foreign-registry", UO, "Unit.get_base_equivalent", "        return Unit(new_units, registry=self.registry)", "        return new_units", ("C03-R1",)),
 ]
